@@ -376,6 +376,14 @@ func (e *Explorer) materialise(states []*State) {
 				} else if got.Hash() != ns.Hash {
 					e.violation("commit-differs-from-dry-run", ns.Parent, ns.Via, "committed database differs from the in-transaction image; committed image:\n"+got.String())
 				}
+				// API reads once more on the committed pages, in a read transaction (the transition oracle
+				// read them inside the still-open write transaction)
+				if opErr == nil {
+					if err := db.View(func(tx *bbolt.Tx) error { return e.Sc.Invariant(tx, ns.Model) }); err != nil {
+						e.violation("api-invariant-after-commit", ns.Parent, ns.Via, "reads on the committed state disagree with the reference model: "+err.Error())
+					}
+					e.Rep.Count("committed_states_read_back", 1)
+				}
 				if e.Cfg.PostCommit != nil {
 					e.Cfg.PostCommit(db, ns, e.Rep)
 				}
